@@ -211,6 +211,33 @@ func genC05(g *Gen) error {
 	g.P("/-- the committed index is frozen (RaftFlag 0) from before the table switch until after the signal -/")
 	g.P("def flagFrozenAcrossFlush : Bool := %v\n", idx("flag0") >= 0 && idx("flag0") < idx("switch") && idx("flag1") > idx("signal") && idx("signal") >= 0)
 
+	// the column-store flush: the signal is given by the flush goroutine after the commit
+	if cfd, err := g.Func("engine/cs_storage.go", "ColumnStoreImpl.writeSnapshot"); err == nil {
+		cev := c05Events(g, cfd.Body, []struct {
+			name  string
+			match func(n ast.Node) bool
+		}{
+			{"flag0", func(n ast.Node) bool {
+				return c05CallNamed(g, n, "StoreUint32") && strings.Contains(g.Src(n), "RaftFlag, 0")
+			}},
+			{"flag1", func(n ast.Node) bool {
+				return c05CallNamed(g, n, "StoreUint32") && strings.Contains(g.Src(n), "RaftFlag, 1")
+			}},
+			{"switch", func(n ast.Node) bool {
+				a, ok := n.(*ast.AssignStmt)
+				return ok && len(a.Lhs) == 1 && g.Src(a.Lhs[0]) == "storage.snapshotContainer[idx]" && g.Src(a.Rhs[0]) == "s.activeTbl"
+			}},
+			{"signal", func(n ast.Node) bool {
+				sd, ok := n.(*ast.SendStmt)
+				return ok && strings.HasSuffix(g.Src(sd.Chan), "RaftFlushC")
+			}},
+			{"commit", func(n ast.Node) bool { return c05CallNamed(g, n, "flush") && strings.HasPrefix(g.Src(n), "storage.flush(") }},
+		})
+		g.StrList("csFlushEvents", cev)
+	} else {
+		return err
+	}
+
 	for _, f := range [][3]string{
 		{rlog + "snapshotter.go", "SnapShotter.TryToUpdateCommittedIndex", "tryToUpdateCommittedIndex"},
 		{rlog + "storage.go", "Init", "storageInit"},
@@ -238,6 +265,77 @@ func genC05(g *Gen) error {
 		}
 		g.P("def src_%s : String := %s", f[2], leanStr(g.Src(fd.Body)))
 	}
+
+	// ---- does the commit loop wait for the start-up replay? ----------------------------------
+	gated := false
+	if scl, err := g.Func(praft, "startCommitLoop"); err == nil {
+		// go func() { <-replayDone; readCommitFromRaft(...) }()
+		ast.Inspect(scl.Body, func(n ast.Node) bool {
+			fl, ok := n.(*ast.FuncLit)
+			if !ok || len(fl.Body.List) < 2 {
+				return true
+			}
+			if es, ok := fl.Body.List[0].(*ast.ExprStmt); ok {
+				if u, ok := es.X.(*ast.UnaryExpr); ok && u.Op == token.ARROW && g.Src(u.X) == "replayDone" {
+					if c05CallNamed(g, fl.Body.List[1].(*ast.ExprStmt).X, "readCommitFromRaft") {
+						gated = true
+					}
+				}
+			}
+			return true
+		})
+		g.P("def src_startCommitLoop : String := %s", leanStr(g.Src(scl.Body)))
+	} else {
+		g.P("def src_startCommitLoop : String := \"\"")
+	}
+	srn, err := g.Func("engine/engine_replication.go", "EngineImpl.startRaftNode")
+	if err != nil {
+		return err
+	}
+	usesGate, startsBare := false, false
+	ast.Inspect(srn.Body, func(n ast.Node) bool {
+		switch x := n.(type) {
+		case *ast.GoStmt:
+			if c05CallNamed(g, x.Call, "readCommitFromRaft") {
+				startsBare = true
+			}
+		case *ast.CallExpr:
+			if c05CallNamed(g, x, "startCommitLoop") && len(x.Args) == 4 && g.Src(x.Args[3]) == "dbPt.replayDone" {
+				usesGate = true
+			}
+		}
+		return true
+	})
+	// the caller closes the gate after it has applied the replay
+	closesAfter := false
+	if f, err := g.Parse("engine/engine_ha.go"); err == nil {
+		for _, d := range f.Decls {
+			fd, ok := d.(*ast.FuncDecl)
+			if !ok || fd.Body == nil {
+				continue
+			}
+			ev := c05Events(g, fd.Body, []struct {
+				name  string
+				match func(n ast.Node) bool
+			}{
+				{"start", func(n ast.Node) bool { return c05CallNamed(g, n, "startRaftNode") }},
+				{"replay", func(n ast.Node) bool { return c05CallNamed(g, n, "readReplayForReplication") }},
+				{"open", func(n ast.Node) bool {
+					c, ok := n.(*ast.CallExpr)
+					return ok && g.Src(c.Fun) == "close" && len(c.Args) == 1 && g.Src(c.Args[0]) == "dbPt.replayDone"
+				}},
+			})
+			if strings.Join(ev, ",") == "start,replay,open" {
+				closesAfter = true
+				g.StrList("assignReplayEvents", ev)
+			}
+		}
+	}
+	if !closesAfter {
+		g.StrList("assignReplayEvents", nil)
+	}
+	g.P("/-- the commit loop of a partition applies nothing before the start-up replay has been applied -/")
+	g.P("def commitLoopAfterReplay : Bool := %v\n", gated && usesGate && !startsBare && closesAfter)
 
 	// ---- propose ids: unique across the lives of a node? -------------------------------------
 	fd, err = g.Func(node, "StartNode")
